@@ -18,7 +18,7 @@ from core.report import Result
 
 from core.inline_stmt import inline_view
 
-from .c11_coll import Collections
+from .c11_coll import Collections, flatten
 from .c11_lib import Fn, names_loaded, show
 from .c11_prov import Provenance, field_key
 from .common import reachable_funcs, assigned_names, cfg_of, conds, dotted, guard_formula, truth, is_attr_call, loop_carried, loops_around, stmt_of, types_of, upward_exposed, where
@@ -345,29 +345,6 @@ def _allow_r2(caller: FuncInfo, callee: FuncInfo) -> bool:
     return callee.module.name != SEARCHES
 
 
-def flatten(conds: list) -> list[tuple[ast.AST, bool]]:
-    """Conjunction of conditions as a list of literals: `a and b` / `not (a or b)` / `not x` / `bool(x)` are taken apart."""
-    out: list[tuple[ast.AST, bool]] = []
-    work = list(conds)
-    while work:
-        e, pol = work.pop(0)
-        if isinstance(e, ast.UnaryOp) and isinstance(e.op, ast.Not):
-            work.insert(0, (e.operand, not pol))
-        elif isinstance(e, ast.BoolOp) and ((isinstance(e.op, ast.And) and pol) or (isinstance(e.op, ast.Or) and not pol)):
-            work = [(v, pol) for v in e.values] + work
-        elif isinstance(e, ast.Call) and isinstance(e.func, ast.Name) and e.func.id == "bool" and len(e.args) == 1:
-            work.insert(0, (e.args[0], pol))
-        elif isinstance(e, ast.Compare) and len(e.ops) == 1 and isinstance(e.ops[0], (ast.IsNot, ast.NotIn, ast.NotEq)):
-            op = {ast.IsNot: ast.Is, ast.NotIn: ast.In, ast.NotEq: ast.Eq}[type(e.ops[0])]()
-            ne = ast.Compare(left=e.left, ops=[op], comparators=e.comparators)
-            out.append((ne, not pol))
-        elif isinstance(e, ast.Constant) and bool(e.value) is pol:
-            continue
-        else:
-            out.append((e, pol))
-    return out
-
-
 @dataclass
 class RegexTest:
     kind: str  # match | fullmatch | search | ...
@@ -457,6 +434,8 @@ def matched_pair(fn: Fn, c, modules_param: str, arch_param: str, membership_of: 
                 return Matched(False, f"the pattern test is `{show(rt.call)}`, not re.match(<regex filter>.identifier, <module name>)")
             test = True
             continue
+        if not pol and c.acc and isinstance(lit, ast.Compare) and isinstance(lit.ops[0], ast.In) and dotted(lit.comparators[0]) == c.acc and c.elt is not None and norm(lit.left) == norm(c.elt):
+            continue  # `if e not in acc: acc.append(e)` - duplicates are not added twice
         if membership_of is not None and pol and isinstance(lit, ast.Compare) and isinstance(lit.ops[0], ast.In) and _is_identifier_of(lit.left, pv) and dotted(lit.comparators[0]) == membership_of:
             continue
         return Matched(False, f"it additionally depends on `{'' if pol else 'not '}{show(lit)}`")
@@ -465,6 +444,11 @@ def matched_pair(fn: Fn, c, modules_param: str, arch_param: str, membership_of: 
     if not flag:
         return Matched(False, "it is also made for filters that are not regex filters (their names are used as patterns)")
     return Matched(True, "", sv, pv)
+
+
+def _full(co: Collections, node: ast.AST):
+    """Normalised description with `if <collection>:` conditions turned into binders."""
+    return co.normalise(co.exists_intro(co.describe(node)))
 
 
 def _tuple_parts(fn: Fn, e: ast.AST) -> list[ast.AST] | None:
@@ -495,7 +479,7 @@ def run_r2(repo: Repo, res: Result) -> None:
         res.undecide("C11.R2", base + "result", "expected a single `return <filters>, <mapping>`", where(view, rets[0] if rets else view.node))
         return
     ret = rets[0]
-    d = co.normalise(co.describe(parts[0]))
+    d = _full(co, parts[0])
     if d.unknown:
         res.undecide("C11.R2", base + "result", "the list of converted filters is not recognised: " + "; ".join(d.unknown[:2]), where(view, ret))
         return
@@ -598,7 +582,7 @@ def _no_match_raises(repo: Repo, view: FuncInfo, fn: Fn, co: Collections, raises
     for lp in scan_loops:
         if not cfg.dominates(lp, guard_if):
             return False, "the unmatched-pattern test can be made before the scan"
-    du = co.normalise(co.describe(u))
+    du = _full(co, u)
     if du.unknown:
         return None, f"`{u.id}` is not recognised: {du.unknown[0]}"
     if not du.contribs:
@@ -643,7 +627,7 @@ def _matched_keys(fn: Fn, co: Collections, m: ast.AST, modules_p: str, arch_p: s
         orig = orig.args[0] if isinstance(orig.func, ast.Name) else orig.func.value
     if ctx is not fn.fi or parent(orig) is None:
         return None, f"`{show(m)}` is not recognised"
-    dm = co.normalise(co.describe(orig))
+    dm = _full(co, orig)
     if dm.unknown or dm.removals:
         return None, f"`{show(m)}` is not recognised"
     if not dm.contribs:
